@@ -222,6 +222,18 @@ def run_forward(c, rec):
     # (b) function values flagged as such
     yb = must(lambda: model.forward(f.copy(), is_par=False), "forward(funvals, is_par=False)")
     require(close(np.asarray(yb), y0, 1e-12), "forward on function values (is_par=False) differs", got=yb, want=y0)
+    # the representation flag given as a numpy boolean (the result of a comparison, an element of a mask): it means what the
+    # Python boolean means
+    yb2 = must(lambda: model.forward(f.copy(), is_par=np.False_), "forward(funvals, is_par=np.False_)")
+    require(close(np.asarray(yb2), y0, 1e-12), "forward with is_par=np.False_ differs from forward with is_par=False", got=yb2, want=y0)
+    ya2 = must(lambda: model.forward(p.copy(), is_par=np.True_), "forward(p, is_par=np.True_)")
+    require(close(np.asarray(ya2), y0, 1e-12), "forward with is_par=np.True_ differs from forward with is_par=True", got=ya2, want=y0)
+    arr_np = cuqi.array.CUQIarray(p.copy(), is_par=np.bool_(True), geometry=dom)
+    yc2 = must(lambda: model.forward(arr_np), "forward(CUQIarray flagged with a numpy boolean)")
+    require(close(np.asarray(yc2), y0, 1e-12), "forward of a CUQIarray whose is_par flag is a numpy boolean differs (the flag was not understood)",
+            got=np.asarray(yc2), want=y0)
+    require(close(np.asarray(arr_np.funvals, dtype=float), np.asarray(f, dtype=float), 1e-12),
+            "CUQIarray(is_par=np.True_).funvals is not par2fun of the parameters")
     # (c,d) geometry-carrying arrays in either representation
     # the array may carry the model's own geometry object or an equal geometry built separately (equality of geometries is by value)
     dom_twin = make_geom(c["dom"])
@@ -310,6 +322,8 @@ def run_gradient(c, rec):
     f = ref_par2fun(c["dom"], p)
     if maxdiff(ref_fun2par(c["dom"], f), p) <= 1e-9:
         # (the function is a function of this geometry: its parameters are recovered exactly)
+        gt_ = must(lambda: model.gradient(d.copy(), p.copy(), is_wrt_par=np.True_), "gradient(is_wrt_par=np.True_)")
+        require(close(np.asarray(gt_, dtype=float), g, 1e-12), "gradient with is_wrt_par=np.True_ differs from is_wrt_par=True")
         gf = must(lambda: model.gradient(d.copy(), f.copy(), is_wrt_par=False), "gradient(is_wrt_par=False)")
         require(close(np.asarray(gf, dtype=float), g, 1e-7), "gradient with wrt given as function values differs")
         fa = cuqi.array.CUQIarray(f.copy(), is_par=False, geometry=dom)
@@ -413,6 +427,43 @@ def run_pde_model(c, rec):
     require(maxdiff(buf, th2) == 0, "PDEModel.forward altered its input")
 
 
+def run_pde_time_model(c, rec):
+    """a time-dependent PDE-based model: outputs handed out earlier stay what they were when the model is evaluated again, and a
+    sample collection is mapped column by column (reference: the Euler recurrence stepped by the harness)"""
+    import cuqi
+    from checks import c18
+    n = c["n"]
+    if rec.classify({"model": "pde_time", "method": c["method"]}, True):
+        return
+    Aof, fof, ic = c18.time_parts(c)
+    times = c["t0"] + np.concatenate([[0.0], np.cumsum(c["dts"])])
+    grid = c18.grid_of(c)
+    k = c["k"]
+
+    def ref(th):
+        u = np.array(ic(th, times[0]), dtype=float)
+        for j in range(len(times) - 1):
+            dt = times[j + 1] - times[j]
+            if c["method"] == "forward_euler":
+                u = u + dt * (Aof(th, times[j]) @ u + fof(th, times[j]))
+            else:
+                u = np.linalg.solve(np.eye(n) - dt * Aof(th, times[j + 1]), u + dt * fof(th, times[j + 1]))
+        return u
+    pde = cuqi.pde.TimeDependentLinearPDE(lambda p, t: (Aof(p, t), fof(p, t), ic(p, t)), times, grid_sol=grid, method=c["method"])
+    dom = cuqi.geometry.Discrete(k)
+    model = must(lambda: cuqi.model.PDEModel(pde, range_geometry=cuqi.geometry.Continuous1D(n), domain_geometry=dom), "constructing PDEModel")
+    ths = [A(c["theta"]), A(c["theta"]) * 0.5 - 0.3, A(c["theta"]) + 0.25]
+    outs = [must(lambda: model.forward(th.copy()), "PDEModel.forward") for th in ths]     # every output is kept ...
+    for th, y in zip(ths, outs):                                                          # ... and looked at only afterwards
+        want = ref(th)
+        require(np.asarray(y).shape == want.shape and maxdiff(np.asarray(y, dtype=float), want) <= 1e-8 * (1 + np.max(np.abs(want))),
+                "PDEModel.forward: an output handed out earlier is no longer the solution for its parameter after the model was evaluated again "
+                "(or never was)", got=np.asarray(y, dtype=float), want=want)
+    Ys = must(lambda: model.forward(cuqi.samples.Samples(np.stack(ths, axis=1), geometry=dom)), "PDEModel.forward(Samples)")
+    for i, th in enumerate(ths):
+        require(maxdiff(np.asarray(Ys.samples, dtype=float)[:, i], ref(th)) <= 1e-8 * (1 + np.max(np.abs(ref(th)))), "PDEModel.forward(Samples) is not column-wise forward", i=i)
+
+
 SUBCHECKS = [
     SubCheck("C12/forward_representations", run_forward, strategy=model_cases, n={"quick": 1200, "thorough": 30000},
              shards={"quick": 4, "thorough": 16}),
@@ -420,6 +471,8 @@ SUBCHECKS = [
              shards={"quick": 4, "thorough": 16}),
     SubCheck("C12/pde_model", run_pde_model, strategy=lambda tier: __import__("checks.c18", fromlist=["steady_cases"]).steady_cases(tier),
              n={"quick": 300, "thorough": 5000}, shards={"quick": 2, "thorough": 8}),
+    SubCheck("C12/pde_time_model", run_pde_time_model, strategy=lambda tier: __import__("checks.c18", fromlist=["time_cases"]).time_cases(tier),
+             n={"quick": 200, "thorough": 3000}, shards={"quick": 2, "thorough": 8}),
     SubCheck("C12/apply_to_distribution", run_rename, strategy=model_cases, n={"quick": 500, "thorough": 10000},
              shards={"quick": 4, "thorough": 16}),
 ]
